@@ -412,11 +412,12 @@ def c14(ctx):
     for ln, im in zip(lines, impl):
         if im in ("PANIC", "ABORT", "HANG"):
             continue
-        kinds["err" if im == "err" else "ok"] += 1
+        # (an error answer carries the message of `Display for ParseError`; the model must name the same kind)
+        kinds[im if im.startswith("err") else "ok"] = kinds.get(im if im.startswith("err") else "ok", 0) + 1
         _, st, hx = ln.split()
         E, P, M = st.split(",")
         raw = b"" if hx == "-" else bytes.fromhex(hx)
-        why = oracle.check_parse(Sem(int(E), int(P), M), raw, im)
+        why = oracle.check_parse(Sem(int(E), int(P), M), raw, "err" if im.startswith("err ") else im)
         if why:
             ctx.fail("oracle", "grammar+malformed", ln, im, "-", why + " (input %r)" % raw)
     ctx.notes.append("input distribution: %s" % kinds)
@@ -612,6 +613,10 @@ def c19(ctx):
                         pl.append("%s %s %s" % (op, s, tok))
                     pl.append("frac %s %d %s" % (s, rng.choice([1, 3]), tok))
             pl.append("frombig %s %x~%d" % (s, 2 ** 52 + 12345, rng.choice([7, 11, 12])))
+    # glue around the core: Display for Semantics, RoundingMode::as_string, get_decimal_accuracy, BigInt::pseudorandom (the LFSR), BigInt::default
+    ml = gen.misc_lines(rng, tiers(ctx, 400, 4000))
+    ctx.stream("misc-glue-release", ml, nontrivial=lambda t: True)
+    ctx.stream("misc-glue-dbg", ml, profile="dbg", nontrivial=lambda t: True)
     ctx.stream("padded-release", pl, spec_mode="total", nontrivial=lambda t: True, chunk_timeout=tiers(ctx, 400, 900), per_line_timeout=tiers(ctx, 20.0, 60.0))
     ctx.stream("padded-dbg", pl, spec_mode="total", profile="dbg", nontrivial=lambda t: True, chunk_timeout=tiers(ctx, 800, 1800), per_line_timeout=tiers(ctx, 40.0, 120.0))
     ctx.stream("extremes-release", lines, spec_mode="total", nontrivial=lambda t: True, chunk_timeout=tiers(ctx, 400, 900), per_line_timeout=tmo)
